@@ -49,6 +49,10 @@ let handle line =
       (match cur_lex (parse_text t) with
        | Ok toks -> "OK " ^ String.concat "|" (List.map tok_str toks)
        | Err e -> "ERR " ^ exn_name e)
+  | ["splitstream"; t] ->
+      (match cur_split_stream (parse_text t) with
+       | Ok stmts -> "OK " ^ String.concat "||" (List.map (fun st -> String.concat "|" (List.map tok_str st)) stmts)
+       | Err e -> "ERR " ^ exn_name e)
   | ["rmatch"; i; pos; t] ->
       let txt = parse_text t in
       let (before, after) = split_at (int_of_string pos) txt in
